@@ -36,6 +36,9 @@ def cases(rng, tier):
     N = 120 if tier == "quick" else 1500
     for _ in range(4 if tier == "quick" else 30):
         yield ("find_cuts", _wire_then_gate(rng))
+    for _ in range(5 if tier == "quick" else 40):
+        yield ("find_cuts", dict(cutfind.gen_near_tie(rng, tier), always_oracle=True))
+        yield ("find_cuts", dict(cutfind.gen_trivial_gate(rng, tier), always_oracle=True))
     for _ in range(N):
         r0 = rng.random()
         if r0 < 0.15:
@@ -104,7 +107,8 @@ def oracle(kind, payload):
     gates2 = cutfind.two_qubit_gates(payload)
     if all(len(g["qubits"]) == 2 for _, g in gates2):
         uncut = max(cutfind.widths_of_plan(payload["nq"], gates2, ["leave"] * len(gates2)))
-        if uncut > payload["width"] and r["overhead"] < 1 + 1e-9:
+        if uncut > payload["width"] and not r["cuts"]:
+            # (an overhead of exactly one is possible with cuts: a gate of kappa 1 is cut for free)
             return f"no cut was made (overhead {r['overhead']}) although the uncut circuit needs {uncut} qubits, limit {payload['width']}"
         why = cutfind.analyse_output(payload, r, gs)
         if why:
